@@ -89,6 +89,15 @@ type evidence struct {
 func (run *checkRun) report(obres []*ObResult, undecided []string, wall float64) int {
 	id := run.id
 	ledger := loadLedger()
+	// Obligation names carry call ordinals and source line numbers (`#call11.…`, `safe.index.110`), which shift when code
+	// is edited: an obligation of changed code is looked up by its exact name first and then with those numbers removed.
+	for k, v := range ledger {
+		if nk := normObName(k); nk != k {
+			if _, dup := ledger[nk]; !dup {
+				ledger[nk] = v
+			}
+		}
+	}
 	outDir := filepath.Join(verifDir, "out", id)
 	os.MkdirAll(outDir, 0o755)
 	violations := 0
@@ -133,7 +142,11 @@ func (run *checkRun) report(obres []*ObResult, undecided []string, wall float64)
 			lines = append(lines, fmt.Sprintf("VIOLATION property=%s replay=%s obligation=%s %s", id, path, o.Name, suffix))
 			exit = max(exit, 1)
 		case "unknown":
-			if le, ok := ledger[o.Name]; ok && (le.Status == "discharged" || le.Status == "known-finding") {
+			le, ok := ledger[o.Name]
+			if !ok {
+				le, ok = ledger[normObName(o.Name)]
+			}
+			if ok && (le.Status == "discharged" || le.Status == "known-finding") {
 				violations++
 				path := run.writeReplay(outDir, o, "undischarged (was discharged by "+le.Solver+" on the baseline)")
 				suffix := run.tryReplay(o, path) // only templates that search a small scope themselves run without a model
